@@ -660,3 +660,60 @@ m('c14-f64-sign-polarity', ['C14'], 'split_f64_into_parts:sign', [
 m('c14-f32-zero-test-includes-sign', ['C14'], 'parse_from_f32:zero-test', [
   ('src/parsing.rs', "    let bits = n.to_bits();\n\n    if (bits << 1) == 0 {\n        return Zero::zero();\n    }\n\n    // n = <sign> frac * 2^pow\n    let (frac, pow, sign) = split_f32_into_parts(n);", "    let bits = n.to_bits();\n\n    if bits == 0 {\n        return Zero::zero();\n    }\n\n    // n = <sign> frac * 2^pow\n    let (frac, pow, sign) = split_f32_into_parts(n);")],
   '-0.0 not recognised as zero: converted through the normal path as -2^-150')
+# ---- C17 numeric visitors
+m('c17-visit-f64-integer-fast-path', ['C17'], 'visit_f64:value-exact', [
+  ('src/impl_serde.rs', """    fn visit_f64<E>(self, value: f64) -> Result<BigDecimal, E>
+    where
+        E: de::Error,
+    {
+""", """    fn visit_f64<E>(self, value: f64) -> Result<BigDecimal, E>
+    where
+        E: de::Error,
+    {
+        if value % 1.0 == 0.0 {
+            return Ok(BigDecimal::from(value as i64));
+        }
+""")],
+  'whole floats converted through a saturating `as i64` cast: 1e300 becomes i64::MAX')
+m('c17-visit-f32-via-text', ['C17'], 'visit_f32:value-exact', [
+  ('src/impl_serde.rs', """    fn visit_f32<E>(self, value: f32) -> Result<BigDecimal, E>
+    where
+        E: de::Error,
+    {
+        BigDecimal::try_from(value).map_err(|err| E::custom(format!("{}", err)))""", """    fn visit_f32<E>(self, value: f32) -> Result<BigDecimal, E>
+    where
+        E: de::Error,
+    {
+        value.to_string().parse::<BigDecimal>().map_err(|err| E::custom(format!("{}", err)))""")],
+  'f32 converted through its shortest text: 0.1f32 becomes 0.1 instead of the exact binary value')
+m('c17-visit-u64-as-i64', ['C17'], 'visit_u64:value-exact', [
+  ('src/impl_serde.rs', """    fn visit_u64<E>(self, value: u64) -> Result<BigDecimal, E>
+    where
+        E: de::Error,
+    {
+        Ok(BigDecimal::from(value))""", """    fn visit_u64<E>(self, value: u64) -> Result<BigDecimal, E>
+    where
+        E: de::Error,
+    {
+        Ok(BigDecimal::from(value as i64))""")],
+  'u64 above i64::MAX wraps negative')
+# ---- C18 normalized()
+m('c18-normalized-scale-raised', ['C18'], 'normalized:strip', [
+  ('src/lib.rs', "        let scale = self.scale - trailing_count as i64;", "        let scale = self.scale + trailing_count as i64;")],
+  'scale moved the wrong way when zeros are stripped')
+m('c18-normalized-counts-leading', ['C18'], 'normalized:strip', [
+  ('src/lib.rs', "        let trailing_count = digits.iter().rev().take_while(|i| **i == 0).count();", "        let trailing_count = digits.iter().take_while(|i| **i == 0).count();")],
+  'zeros counted from the most significant end: nothing is ever stripped')
+m('c18-normalized-scale-not-adjusted', ['C18'], 'normalized:strip', [
+  ('src/lib.rs', "        BigDecimal::new(int_val, scale)\n    }\n\n    //////////////////////////\n    // Formatting methods", "        let _ = scale;\n        BigDecimal::new(int_val, self.scale)\n    }\n\n    //////////////////////////\n    // Formatting methods")],
+  'digits stripped but the scale kept')
+m('c18-normalized-limb-fast-path', ['C18'], 'normalized:fast-path-limb-mod', [
+  ('src/lib.rs', "        let (sign, mut digits) = self.int_val.to_radix_be(10);\n        let trailing_count", "        let low_word = self.int_val.iter_u64_digits().next().unwrap_or(0);\n        if low_word % 10 != 0 {\n            return self.clone();\n        }\n        let (sign, mut digits) = self.int_val.to_radix_be(10);\n        let trailing_count")],
+  'last decimal digit inferred from the low 64-bit word (2^64 mod 10 = 6)')
+# ---- C16 the padding limit bounds what is written
+m('c16-limit-tested-on-integer-zeros-only', ['C16'], 'limit-bounds-fill', [
+  ('src/impl_fmt.rs', "    if total_additional_zeros > FMT_MAX_INTEGER_PADDING {", "    if integer_zero_count > FMT_MAX_INTEGER_PADDING {")],
+  'fraction zeros requested by {:.N} no longer count toward the padding limit')
+m('c16-limit-tested-after-halving', ['C16'], 'limit-bounds-fill', [
+  ('src/impl_fmt.rs', "    if total_additional_zeros > FMT_MAX_INTEGER_PADDING {", "    if total_additional_zeros / 2 > FMT_MAX_INTEGER_PADDING {")],
+  'limit compared with half the amount written')
